@@ -18,6 +18,7 @@ type (
 	Ident   struct{ Name string }
 	IntLit  struct{ Val string }
 	BoolLit struct{ Val bool }
+	StrLit  struct{ Val string }
 	Unary   struct {
 		Op string
 		X  Expr
@@ -48,6 +49,7 @@ type (
 func (e *Ident) String() string   { return e.Name }
 func (e *IntLit) String() string  { return e.Val }
 func (e *BoolLit) String() string { return fmt.Sprint(e.Val) }
+func (e *StrLit) String() string  { return fmt.Sprintf("%q", e.Val) }
 func (e *Unary) String() string   { return e.Op + e.X.String() }
 func (e *Binary) String() string {
 	return "(" + e.X.String() + " " + e.Op + " " + e.Y.String() + ")"
@@ -104,6 +106,16 @@ func lexExpr(s string) ([]tok, error) {
 			}
 			toks = append(toks, tok{"id", s[i:j]})
 			i = j
+		case c == '"':
+			j := i + 1
+			for j < len(s) && s[j] != '"' {
+				j++
+			}
+			if j >= len(s) {
+				return nil, fmt.Errorf("unterminated string literal in %q", s)
+			}
+			toks = append(toks, tok{"str", s[i+1 : j]})
+			i = j + 1
 		case unicode.IsDigit(c):
 			j := i
 			for j < len(s) && unicode.IsDigit(rune(s[j])) {
@@ -204,6 +216,8 @@ func (p *exprParser) parseUnary() Expr {
 func (p *exprParser) parsePrimary() Expr {
 	t := p.next()
 	switch t.kind {
+	case "str":
+		return &StrLit{t.text}
 	case "int":
 		if p.peek().text == "^" {
 			p.next()
@@ -366,7 +380,7 @@ func substitute(e Expr, m map[string]Expr) Expr {
 			return r
 		}
 		return e
-	case *IntLit, *BoolLit:
+	case *IntLit, *BoolLit, *StrLit:
 		return e
 	case *Unary:
 		return &Unary{e.Op, substitute(e.X, m)}
